@@ -211,13 +211,13 @@ func linkAlphabet() []step {
 	for _, op := range []string{"add", "edit", "break", "remove", "target-away", "target-back", "touch-identical"} {
 		out = append(out, step{Op: op, File: "L.mtail"})
 	}
-	return append(out, step{Op: "edit", File: "A.mtail"}, step{Op: "remove", File: "A.mtail"}, step{Op: "rescan"})
+	return append(out, step{Op: "edit", File: "A.mtail"}, step{Op: "remove", File: "A.mtail"}, step{Op: "rescan"}, step{Op: "progdir-away-for-one-reload", File: "A.mtail"})
 }
 
 func TestC26(t *testing.T) {
 	r := ev.Start(t, "C26", "exploration")
 	defer r.Finish()
-	r.Rule("program directory with up to 3 program files, a dot-file holding a valid program, a README holding a valid program, and a sub-directory holding programs; histories over {add, edit, touch-identical, break, remove, replace-by-dir} x files + renames to an eligible / ineligible / hidden name and back + rescan, and over a program that is a symlink to a file outside the directory {add, edit, break, remove, target moved away (entry present but unreadable), target back}; every history of length <=2 (quick) / <=3 (thorough) over 2 files exhaustively, plus random length-12 histories over 3 files. After each step + LoadAllPrograms a numbered probe line is pushed (two barrier lines make its processing complete); the (program, VM) pairs that processed it, the per-version marker gauge, the probe counters and prog_loads/unloads/load_errors_total are compared with the model. Non-trivial: history in which the running set or a running version changed at least twice; distinct by history.")
+	r.Rule("program directory with up to 3 program files, a dot-file holding a valid program, a README holding a valid program, and a sub-directory holding programs; histories over {add, edit, touch-identical, break, remove, replace-by-dir} x files + renames to an eligible / ineligible / hidden name and back + rescan, and over a program that is a symlink to a file outside the directory {add, edit, break, remove, target moved away (entry present but unreadable), target back, the whole directory away for one reload}; every history of length <=2 (quick) / <=3 (thorough) over 2 files exhaustively, plus random length-12 histories over 3 files. After each step + LoadAllPrograms a numbered probe line is pushed (two barrier lines make its processing complete); the (program, VM) pairs that processed it, the per-version marker gauge, the probe counters and prog_loads/unloads/load_errors_total are compared with the model. Non-trivial: history in which the running set or a running version changed at least twice; distinct by history.")
 	r.Assume("programs of different names use the same metric names with the same kinds (no kind clash: that interaction is C06's)")
 	lh := func(id uint64, name string, l *logline.LogLine, phase int) {
 		if phase != 0 {
@@ -397,6 +397,24 @@ func TestC26(t *testing.T) {
 				break
 			}
 			before := fmt.Sprint(w.running)
+			// the whole program directory away for one reload (a directory-swap
+			// deploy): that reload fails as a whole and changes nothing; the
+			// next one, with the directory back, works as ever
+			if s.Op == "progdir-away-for-one-reload" {
+				_ = os.Rename(dir, dir+".away")
+				if err := rt.LoadAllPrograms(); err == nil {
+					bad = "LoadAllPrograms reported no error although the program directory does not exist"
+					failStep = k
+					_ = os.Rename(dir+".away", dir)
+					break
+				}
+				_ = os.Rename(dir+".away", dir)
+				r.Count("steps_"+s.Op, 1)
+				if bad = check(k); bad != "" {
+					failStep = k
+				}
+				continue
+			}
 			w.apply(s)
 			if err := rt.LoadAllPrograms(); err != nil {
 				bad = "LoadAllPrograms: " + err.Error()
